@@ -52,6 +52,33 @@ def scan_function(q: str, fn: ast.FunctionDef, file: str, rid: str) -> List[R.In
                           f"setters, slot assignment swaps the frame of the same list object), so a later call returns the value "
                           f"computed before the edit", construct=f"@{memo[0]} {short}"))
     is_getter = "property" in decos
+    # method memo: the method stores self.A and, on another path, returns what it finds in self.A
+    if first == "self" and not is_getter and fn.name not in ("__init__", "__post_init__", "__setattr__") and not any(d.endswith(".setter") for d in decos):
+        stored = {}
+        for n in ast.walk(fn):
+            if isinstance(n, ast.Assign) and len(n.targets) == 1 and isinstance(n.targets[0], ast.Attribute) and \
+                    isinstance(n.targets[0].value, ast.Name) and n.targets[0].value.id == "self":
+                stored[n.targets[0].attr] = n
+        for attr, node in stored.items():
+            holders = set()
+            for n in ast.walk(fn):
+                if isinstance(n, ast.Assign) and len(n.targets) == 1 and isinstance(n.targets[0], ast.Name):
+                    v = n.value
+                    reads = any(isinstance(x, ast.Attribute) and x.attr == attr and isinstance(x.value, ast.Name) and x.value.id == "self" and
+                                isinstance(x.ctx, ast.Load) for x in ast.walk(v)) or any(
+                        isinstance(x, ast.Call) and isinstance(x.func, ast.Name) and x.func.id == "getattr" and len(x.args) >= 2 and
+                        isinstance(x.args[1], ast.Constant) and x.args[1].value == attr for x in ast.walk(v))
+                    if reads:
+                        holders.add(n.targets[0].id)
+            rets = [r for r in ast.walk(fn) if isinstance(r, ast.Return) and r.value is not None and r.lineno < node.lineno and (
+                any(isinstance(x, ast.Name) and x.id in holders for x in ast.walk(r.value)) or
+                any(isinstance(x, ast.Attribute) and x.attr == attr and isinstance(x.value, ast.Name) and x.value.id == "self"
+                    for x in ast.walk(r.value)))]
+            if rets:
+                out.append(R.viol(rid, f"{short}:method-memo", file, node.lineno,
+                                  f"{short} keeps its result in self.{attr} and returns the kept value on later calls (line {rets[0].lineno}): "
+                                  f"lists and charts are edited in place (generated column setters assign into the same frame), so the kept "
+                                  f"result is not invalidated by the edits it depends on", construct=f"{short}: self.{attr} memo"))
     for n in ast.walk(fn):
         if isinstance(n, (ast.Assign, ast.AugAssign, ast.AnnAssign)):
             tgts = n.targets if isinstance(n, ast.Assign) else [n.target]
